@@ -6,6 +6,7 @@ typestate invariant I-transparent for every pointer cast to SeqSlice.
 import re
 
 import an
+import kstorage
 import nf
 from an import P, F, L, BITS, add, sub, mul, c, cmp, canon, gset, gshow, opt_kind
 from terms import show
@@ -101,6 +102,7 @@ def run(ctx, chk):
                 chk.ob("R-index/checked", what + " via " + key.split("::")[-1], okc,
                        "uses %s, not bitvec's checked Index" % key, b["span"])
             nforms += 1
+        kstorage.unchecked_scan(chk, cfg)
         # ---- repr(transparent) ----
         for adt_path in ("seq::slice::SeqSlice", "seq::Seq", "seq::array::SeqArray", "kmer::Kmer"):
             a = bio.adts.get(adt_path)
